@@ -93,6 +93,7 @@ class ToGFA1:
     Parameters:
       value (str, gfapy.line.segment.GFA2)
     """
+    self._check_not_connected_for_edit("from_segment")
     self.oriented_from.line = value
 
   @property
@@ -117,6 +118,7 @@ class ToGFA1:
     Parameters:
       value (str): one of ["+", "-"]
     """
+    self._check_not_connected_for_edit("from_orient")
     self.oriented_from.orient = value
 
   @property
@@ -140,6 +142,7 @@ class ToGFA1:
     Parameters:
       value (str or gfapy.line.segment.GFA2)
     """
+    self._check_not_connected_for_edit("to_segment")
     self.oriented_to.line = value
 
   @property
@@ -164,6 +167,7 @@ class ToGFA1:
     Parameters:
       value (str): one of ["+", "-"]
     """
+    self._check_not_connected_for_edit("to_orient")
     self.oriented_to.orient = value
 
   @property
@@ -188,6 +192,12 @@ class ToGFA1:
                              gfapy.islastpos(self.end2)) else self.beg2
       else:
         return self.beg1
+
+  def _check_not_connected_for_edit(self, fn):
+    if self.is_connected():
+      raise gfapy.RuntimeError(
+        "The value of '{}' cannot be changed, ".format(fn)+
+        "as the line belongs to a GFA instance")
 
   def _check_not_internal(self, fn):
     if self.is_internal():
